@@ -3,7 +3,7 @@ from .. import cases, monitors, oracles
 from . import _align_common as ac
 
 TITLE = "Disorder values follow the definition"
-DECIDING = ["M-DIS", "M-DEF-ALIGN", "M-DEF-UNITARY", "M-SLOT-ORDER"]
+DECIDING = ["M-DIS", "M-DEF-ALIGN", "M-DEF-UNITARY", "M-SLOT-ORDER", "M-CARRIED-VS-RECOMPUTED"]
 LEVEL = "exploration"
 RULE = ("(A) alignments returned by the library (best / soft / fast with random window sizes) on seeded random continua: "
         "cached Alignment.disorder and carried per-unitary disorders against the float64 definition recomputed from "
@@ -16,6 +16,9 @@ ASSUMPTIONS = [
     "the reference evaluates the definition in float64 through the dissimilarity's unit-to-unit function d() (C04 "
     "ties d() to the compiled form and to the documented formula)",
     "tolerance |a-b| <= 2e-5*max(1,|a|,|b|) (library values are float32)",
+    "20 % of the cases use arbitrary doubles far from the origin with short units; for those the reference takes its pair "
+    "costs from the compiled kernel on float32 arrays (start, end, float64 duration rounded once) - the precision model "
+    "the library documents - and carried / recomputed / stored values must agree with it and with each other",
     "known finding D2 (UnitaryAlignment.compute_disorder scaled by n/k when k < n slots hold a unit) is recognised "
     "only by its exact quantitative signature",
 ]
@@ -50,9 +53,11 @@ def check_returned(ctx, case):
         ctx.fail_exc(f"{mode}:raises:{type(e).__name__}", e, monitor="M-DIS")
         return
     ctx.count("M-DIS")
-    pr, ref_total = monitors.check_disorders(continuum, al, dissim)
+    via = "d_mat" if case.get("arbitrary_doubles") else "d"
+    pr, ref_total = monitors.check_disorders(continuum, al, dissim, via=via)
     if pr:
-        ctx.fail(f"{mode}:returned-disorder-mismatch", {"problems": pr}, monitor="M-DIS")
+        ctx.fail(f"{mode}:returned-disorder-mismatch", {"problems": pr, "reference_pair_costs": via}, monitor="M-DIS")
+    carried = [float(ua.disorder) for ua in al.unitary_alignments]
     # lazily summed disorder of an alignment rebuilt from the carried unitary disorders
     from pygamma_agreement.alignment import Alignment, SoftAlignment
     cls = SoftAlignment if mode == "soft" else Alignment
@@ -69,6 +74,13 @@ def check_returned(ctx, case):
         rec = float(al.compute_disorder(dissim))
         if not oracles.close(rec, ref_total):
             ctx.fail(f"{mode}:recomputed-mismatch", {"recomputed": rec, "definition": ref_total}, monitor="M-DEF-ALIGN")
+        # the per-unitary disorders stored by the recomputation must agree with the ones the alignment carried
+        ctx.count("M-CARRIED-VS-RECOMPUTED")
+        for k, (c0, ua) in enumerate(zip(carried, al.unitary_alignments)):
+            if not oracles.close(c0, float(ua.disorder)):
+                ctx.fail(f"{mode}:carried-unitary-disorder-differs-from-recomputed",
+                         {"k": k, "carried": c0, "recomputed": float(ua.disorder)}, monitor="M-CARRIED-VS-RECOMPUTED")
+                break
         if not oracles.close(float(al.disorder), ref_total):
             ctx.fail(f"{mode}:cached-after-recompute-mismatch", {"cached": float(al.disorder), "definition": ref_total},
                      monitor="M-DEF-ALIGN")
@@ -86,7 +98,10 @@ def check_handbuilt(ctx, case):
     nunits = cases.spec_num_units(cspec)
     avg = nunits / n
     al = cases.build_alignment(cspec, aspec, continuum=continuum, slot_order=case.get("slot_order"))
-    refs = [oracles.ref_unitary_disorder(_units_of(ua), dissim.d, dissim.delta_empty) for ua in al.unitary_alignments]
+    pair = dissim.d
+    if case.get("arbitrary_doubles"):
+        pair = monitors.compiled_pair_cost(dissim, cases.spec_labels(cspec))
+    refs = [oracles.ref_unitary_disorder(_units_of(ua), pair, dissim.delta_empty) for ua in al.unitary_alignments]
     ref_total = sum(refs) / avg
     ctx.count("M-DEF-ALIGN")
     try:
@@ -170,9 +185,17 @@ def run(ctx):
         mx = {2: 9, 3: 6, 4: 5, 5: 4}[n]
         cspec = cases.gen_continuum(rng, n_annot=n, max_units=rng.randint(1, mx), labels=labels or cases.LABELS_SMALL,
                                     min_total=2)
+        arbitrary = rng.random() < 0.2
+        if arbitrary:
+            # arbitrary doubles far from the origin with short units: not float32-representable, so the reference takes
+            # its pair costs from the compiled kernel on float32 arrays built the way the library documents them
+            off = rng.choice([0.0, 20000.0, 86400.0, 3600.5]) + rng.random()
+            k = rng.choice([0.01, 0.03, 1.0, 1 / 3])
+            cspec = {"ann": {a: [[off + u[0] * k, off + u[0] * k + max(2e-4, (u[1] - u[0]) * k * rng.uniform(0.5, 1.5)), u[2]]
+                                 for u in us] for a, us in cspec["ann"].items()}, "family": "arbitrary-doubles"}
         if i % 3 == 0:
             mode = rng.choice(["best", "soft", "fast"])
-            case = {"type": "returned", "continuum": cspec, "dissim": dspec, "mode": mode}
+            case = {"type": "returned", "continuum": cspec, "dissim": dspec, "mode": mode, "arbitrary_doubles": arbitrary}
             if mode == "fast":
                 case["window"] = rng.randint(1, mx + 1)
             ctx.begin_case(case)
@@ -185,9 +208,10 @@ def run(ctx):
                 order = list(names)
                 rng.shuffle(order)
             case = {"type": "handbuilt", "continuum": cspec, "dissim": dspec, "alignment": aspec,
-                    "attach": rng.random() < 0.5, "slot_order": order}
+                    "attach": rng.random() < 0.5, "slot_order": order, "arbitrary_doubles": arbitrary}
             ctx.begin_case(case)
             ctx.observe("mode", "handbuilt-attached" if case["attach"] else "handbuilt-detached")
         ctx.observe("annotators", n)
         ctx.observe("dissim", dspec["kind"])
+        ctx.observe("times", "arbitrary doubles" if arbitrary else "float32-representable")
         check_case(ctx, case)
